@@ -48,6 +48,13 @@ pub fn label_char_ok(c: u8) -> bool {
 ///   label bytes must not be control characters, '.' or '\\';
 /// * `!allow_ptr` (DNAME target): no pointers, any label bytes.
 pub fn name_end(p: &[u8], off: usize, allow_ptr: bool) -> Option<usize> {
+    name_end_x(p, off, allow_ptr, allow_ptr)
+}
+
+/// `chars`: apply the label character policy (when false only the structure
+/// of the name is checked; used for layouts of packets with symbolic label
+/// characters that the real parser has already accepted)
+pub fn name_end_x(p: &[u8], off: usize, allow_ptr: bool, chars: bool) -> Option<usize> {
     let n = p.len();
     if off >= n {
         return None;
@@ -101,7 +108,7 @@ pub fn name_end(p: &[u8], off: usize, allow_ptr: bool) -> Option<usize> {
         if total > MAX_NAME {
             return None;
         }
-        if allow_ptr {
+        if chars {
             let mut j = 0;
             while j < l {
                 if !label_char_ok(p[cur + 1 + j]) {
@@ -181,16 +188,44 @@ pub struct Layout {
 
 #[derive(Clone, Copy, Debug, PartialEq, Eq)]
 pub enum Acc {
-    /// well-formed; layout available
-    Yes(Layout),
+    /// well-formed; layout filled in
+    Yes,
     /// not well-formed
     No,
     /// well-formed prefix but more records/options than the fixed tables hold
     TooBig,
 }
 
-/// Acceptance policy of C02 for a whole packet.
-pub fn accepts(p: &[u8]) -> Acc {
+impl Layout {
+    pub const fn new() -> Layout {
+        Layout {
+            counts: [0; 4],
+            sect_start: [0; 4],
+            nrec: 0,
+            recs: [NOREC; MAX_RR],
+            opt: None,
+            edns_start: 0,
+            edns_end: 0,
+            nopts: 0,
+            opts: [(0, 0); MAX_OPTS],
+        }
+    }
+}
+
+/// Acceptance policy of C02 for a whole packet. The layout is written to
+/// `lay` (an out-parameter rather than an enum payload: the solver's constant
+/// propagation does not see through large enum payloads).
+pub fn accepts(p: &[u8], lay: &mut Layout) -> Acc {
+    accepts_x(p, lay, true)
+}
+
+/// The structure of a packet (everything in `accepts` except the label
+/// character policy).
+pub fn layout_of(p: &[u8], lay: &mut Layout) -> Acc {
+    accepts_x(p, lay, false)
+}
+
+pub fn accepts_x(p: &[u8], lay: &mut Layout, chars: bool) -> Acc {
     let n = p.len();
     if n < 12 {
         return Acc::No;
@@ -206,21 +241,12 @@ pub fn accepts(p: &[u8]) -> Acc {
     if !is_response && (an > 0 || ns > 0) {
         return Acc::No;
     }
-    let mut lay = Layout {
-        counts: [qd, an, ns, ar],
-        sect_start: [0; 4],
-        nrec: 0,
-        recs: [NOREC; MAX_RR],
-        opt: None,
-        edns_start: 0,
-        edns_end: 0,
-        nopts: 0,
-        opts: [(0, 0); MAX_OPTS],
-    };
+    *lay = Layout::new();
+    lay.counts = [qd, an, ns, ar];
     // question
     let mut off = 12usize;
     lay.sect_start[0] = off;
-    let qn = match name_end(p, off, true) {
+    let qn = match name_end_x(p, off, true, chars) {
         None => return Acc::No,
         Some(e) => e,
     };
@@ -249,7 +275,7 @@ pub fn accepts(p: &[u8]) -> Acc {
             if lay.nrec >= MAX_RR {
                 return Acc::TooBig;
             }
-            let ne = match name_end(p, off, true) {
+            let ne = match name_end_x(p, off, true, chars) {
                 None => return Acc::No,
                 Some(e) => e,
             };
@@ -299,13 +325,13 @@ pub fn accepts(p: &[u8]) -> Acc {
                         good
                     }
                 }
-                T_NS | T_CNAME | T_PTR => rdlen > 0 && name_end(p, rd, true) == Some(next),
-                T_MX => rdlen > 2 && name_end(p, rd + 2, true) == Some(next),
+                T_NS | T_CNAME | T_PTR => rdlen > 0 && name_end_x(p, rd, true, chars) == Some(next),
+                T_MX => rdlen > 2 && name_end_x(p, rd + 2, true, chars) == Some(next),
                 T_SOA => {
                     rdlen > 21
-                        && match name_end(p, rd, true) {
+                        && match name_end_x(p, rd, true, chars) {
                             None => false,
-                            Some(e1) => match name_end(p, e1, true) {
+                            Some(e1) => match name_end_x(p, e1, true, chars) {
                                 None => false,
                                 Some(e2) => e2 + 20 == next,
                             },
@@ -336,7 +362,7 @@ pub fn accepts(p: &[u8]) -> Acc {
     if off != n {
         return Acc::No;
     }
-    Acc::Yes(lay)
+    Acc::Yes
 }
 
 /// Does any name the library understands contain a compression pointer?
@@ -483,10 +509,11 @@ pub fn names_eq(p1: &[u8], o1: usize, p2: &[u8], o2: usize, ci: bool) -> bool {
     let mut a = NameCur::new(p1, o1);
     let mut b = NameCur::new(p2, o2);
     let mut g = 0;
+    let mut same = true;
     while g < 260 {
         g += 1;
         match (a.next(), b.next()) {
-            (None, None) => return true,
+            (None, None) => return same,
             (Some((x, xl)), Some((y, yl))) => {
                 if xl != yl {
                     return false;
@@ -496,11 +523,9 @@ pub fn names_eq(p1: &[u8], o1: usize, p2: &[u8], o2: usize, ci: bool) -> bool {
                         return false;
                     }
                 } else if ci {
-                    if lower(x) != lower(y) {
-                        return false;
-                    }
-                } else if x != y {
-                    return false;
+                    same &= lower(x) == lower(y);
+                } else {
+                    same &= x == y;
                 }
             }
             _ => return false,
@@ -547,14 +572,23 @@ pub fn name_is(p: &[u8], off: usize, w: &[u8], ci: bool) -> bool {
 /// RFC 1035 records: owner, type, class, TTL and data, names expanded.
 /// `ci`: names compared case-insensitively.
 pub fn rec_eq(p1: &[u8], r1: &Rec, p2: &[u8], r2: &Rec, ci: bool) -> bool {
-    if r1.section != r2.section || r1.rtype != r2.rtype {
-        return false;
-    }
     if !names_eq(p1, r1.start, p2, r2.start, ci) {
         return false;
     }
+    rec_eq_rest(p1, r1, p2, r2, ci)
+}
+
+/// Everything of a record but its owner name.
+pub fn rec_eq_rest(p1: &[u8], r1: &Rec, p2: &[u8], r2: &Rec, ci: bool) -> bool {
+    if r1.section != r2.section {
+        return false;
+    }
     if r1.section == 0 {
-        return rd16(p1, r1.name_end + 2) == rd16(p2, r2.name_end + 2);
+        // question: type and class as found in the bytes
+        return rd16(p1, r1.name_end) == rd16(p2, r2.name_end) && rd16(p1, r1.name_end + 2) == rd16(p2, r2.name_end + 2);
+    }
+    if r1.rtype != r2.rtype {
+        return false;
     }
     // class, ttl
     if rd16(p1, r1.name_end + 2) != rd16(p2, r2.name_end + 2)
@@ -589,13 +623,12 @@ pub fn bytes_eq(p1: &[u8], o1: usize, p2: &[u8], o2: usize, n: usize) -> bool {
         return false;
     }
     let mut i = 0;
+    let mut same = true;
     while i < n {
-        if p1[o1 + i] != p2[o2 + i] {
-            return false;
-        }
+        same &= p1[o1 + i] == p2[o2 + i];
         i += 1;
     }
-    true
+    same
 }
 
 /// Same decoded message: header (id, flags, counts) and every record.
@@ -677,4 +710,145 @@ pub fn is_plain_name(w: &[u8]) -> bool {
         cur += b + 1;
     }
     false
+}
+
+/// Where the records `recs` of packet `p` land once every name the library
+/// understands is expanded (decompression): fills `out`, returns the total
+/// length of the expanded packet.
+pub fn expanded_layout(p: &[u8], recs: &[Rec], out: &mut [Rec; MAX_RR]) -> usize {
+    let mut cur = 12;
+    let mut i = 0;
+    while i < recs.len() && i < MAX_RR {
+        let r = &recs[i];
+        let ne = cur + name_wire_len(p, r.start);
+        if r.section == 0 {
+            out[i] = Rec { start: cur, name_end: ne, rtype: r.rtype, rdlen: 0, next: ne + 4, section: 0 };
+            cur = ne + 4;
+        } else {
+            let rd = r.name_end + 10;
+            let rdlen = match r.rtype {
+                T_NS | T_CNAME | T_PTR => name_wire_len(p, rd),
+                T_MX => 2 + name_wire_len(p, rd + 2),
+                T_SOA => {
+                    let e1 = skip_written_name(p, rd);
+                    name_wire_len(p, rd) + name_wire_len(p, e1) + 20
+                }
+                _ => r.rdlen,
+            };
+            out[i] = Rec { start: cur, name_end: ne, rtype: r.rtype, rdlen, next: ne + 10 + rdlen, section: r.section };
+            cur = ne + 10 + rdlen;
+        }
+        i += 1;
+    }
+    cur
+}
+
+/// Does any name the library understands, in the records `recs` of `p`,
+/// contain a compression pointer?
+pub fn recs_have_pointer(p: &[u8], recs: &[Rec]) -> bool {
+    let mut i = 0;
+    while i < recs.len() {
+        let r = &recs[i];
+        if name_has_ptr(p, r.start) {
+            return true;
+        }
+        let rd = r.name_end + 10;
+        if r.section != 0 {
+            match r.rtype {
+                T_NS | T_CNAME | T_PTR => {
+                    if name_has_ptr(p, rd) {
+                        return true;
+                    }
+                }
+                T_MX => {
+                    if name_has_ptr(p, rd + 2) {
+                        return true;
+                    }
+                }
+                T_SOA => {
+                    if name_has_ptr(p, rd) {
+                        return true;
+                    }
+                    let e1 = skip_written_name(p, rd);
+                    if name_has_ptr(p, e1) {
+                        return true;
+                    }
+                }
+                _ => {}
+            }
+        }
+        i += 1;
+    }
+    false
+}
+
+#[derive(Clone, Copy, Debug, PartialEq, Eq)]
+pub enum Renamed {
+    Unchanged,
+    To(usize),
+    TooLong,
+}
+
+/// C07: the expected effect of a rename on one expanded pointer-free name
+/// `n` (wire form): if `n` equals `source` (or, with `suffix`, ends with it on
+/// a label boundary), compared case-insensitively, that part is replaced by
+/// `target`; the result is written to `out`.
+pub fn rename_expected(n: &[u8], target: &[u8], source: &[u8], suffix: bool, out: &mut [u8; 600]) -> Renamed {
+    let nl = n.len();
+    let sl = source.len();
+    if nl < sl || (!suffix && nl != sl) {
+        return Renamed::Unchanged;
+    }
+    let off = nl - sl;
+    // off must be a label boundary of n
+    let mut cur = 0;
+    let mut g = 0;
+    let mut boundary = false;
+    while g < 130 && cur < nl {
+        g += 1;
+        if cur == off {
+            boundary = true;
+            break;
+        }
+        if n[cur] == 0 {
+            break;
+        }
+        cur += n[cur] as usize + 1;
+    }
+    if !boundary {
+        return Renamed::Unchanged;
+    }
+    // compare n[off..] with source: same label lengths, label bytes up to case
+    let mut i = 0;
+    let mut left = 0usize;
+    while i < sl {
+        let a = n[off + i];
+        let b = source[i];
+        if left == 0 {
+            if a != b {
+                return Renamed::Unchanged;
+            }
+            left = a as usize;
+        } else {
+            if lower(a) != lower(b) {
+                return Renamed::Unchanged;
+            }
+            left -= 1;
+        }
+        i += 1;
+    }
+    if off + target.len() > MAX_NAME {
+        return Renamed::TooLong;
+    }
+    let mut k = 0;
+    while k < off {
+        out[k] = n[k];
+        k += 1;
+    }
+    let mut j = 0;
+    while j < target.len() {
+        out[off + j] = target[j];
+        j += 1;
+    }
+    Renamed::To(off + target.len())
 }
